@@ -126,6 +126,13 @@ def execute(case, choose, cancel_at=None):
             def __len__(self):
                 return int(self.busy)  # resources currently held: an idle lease is "empty", i.e. tests false
 
+            def __await__(self):
+                # ``await lease`` (without a block) is this class's OTHER way of use and gives something else
+                # entirely; the decorator has no business taking it
+                CTX.foreign.append("the decorator awaited the manager object instead of entering it")
+                return "an unmanaged resource"
+                yield  # pragma: no cover
+
             async def __aenter__(self):
                 if self.busy:
                     raise RuntimeError(f"lease {self.gid} entered while already in use")
@@ -149,6 +156,11 @@ def execute(case, choose, cancel_at=None):
         class Manager(A.ContextDecorator):
             def __bool__(self):
                 return False
+
+            def __await__(self):
+                CTX.foreign.append("the decorator awaited the manager object instead of entering it")
+                return "an unmanaged resource"
+                yield  # pragma: no cover
 
             async def __aenter__(self):
                 ev.append((CTX.current, "enter", "shared"))
